@@ -16,14 +16,14 @@ def first_divergence(rec, lean):
     return dict(op_index=len(rec.outputs), op='<end>', python=[], lean=lean[pos:pos + 5], script=rec.lines[-40:])
 
 
-def run(ctx, n_nominal, n_hostile, salt):
+def run(ctx, n_nominal, n_hostile, salt, n_lossy=0):
     rng = random.Random(ctx.seed * 1000003 + salt)
     dis, traces, evals, distinct, hist = [], 0, 0, set(), {}
     sample = None
-    for kind, n in (('nominal', n_nominal), ('hostile', n_hostile)):
+    for kind, n in (('nominal', n_nominal), ('hostile', n_hostile), ('lossy', n_lossy)):
         for _ in range(n):
             sub = random.Random(rng.getrandbits(48))
-            rec = gen21.nominal_script(sub, C.REPO) if kind == 'nominal' else gen21.hostile_script(sub, C.REPO)
+            rec = gen21.nominal_script(sub, C.REPO) if kind == 'nominal' else (gen21.hostile_script(sub, C.REPO) if kind == 'hostile' else gen21.lossy_script(sub, C.REPO))
             lean = ctx.driver.run_lines(rec.lines)
             traces += 1
             evals += len(rec.lines)
